@@ -420,7 +420,7 @@ Proof.
   intros d ct fk I Hct Hfk. pose proof (std_fk _ _ _ (inv_std _ I) Hct Hfk) as S.
   pose proof (fk_standard_parent _ _ _ S) as P. unfold fk_standard in S.
   apply andb_true_iff in S. destruct S as [S _]. apply andb_true_iff in S. destruct S as [S1 S2].
-  split; [apply strictly_ascending_nodup; exact S1|]. split.
+  split; [apply nat_nodupb_NoDup; exact S1|]. split.
   - intros c Hc. rewrite forallb_forall in S2. specialize (S2 c Hc). apply Nat.ltb_lt. exact S2.
   - split; [eapply std_fk_cols_nonempty; eassumption|exact P].
 Qed.
